@@ -39,7 +39,7 @@ DTYPES = ['int8', 'uint8', 'int32', 'int64', 'float16', 'float32', 'float64',
           'bool', 'object', 'complex64', '>i4', '>f8', 'S5', 'U3',
           'datetime64[D]']
 TRAILS = [[], [2], [0], [2, 3]]
-PREPS = ['derive', 'cast', 'drop', 'scale', 'inplace']
+PREPS = ['derive', 'cast', 'drop', 'scale', 'inplace', 'pair_T']
 
 
 def make_feature(n, dtype, trail, salt):
@@ -74,13 +74,21 @@ def build_raw(case):
   n = case['n']
   raw = {'id': np.arange(1, n + 1, dtype=np.int64)}
   for j, f in enumerate(case['features']):
-    raw[f'f{j}'] = make_feature(n, f['dtype'], f['trail'], j)
+    v = make_feature(n, f['dtype'], f['trail'], j)
+    if case.get('layout') == 'F' and v.ndim >= 2:
+      # column-major memory layout (what np.stack([...]).T, DataFrame.values or
+      # np.asfortranarray give): the same logical rows
+      v = np.asfortranarray(v)
+    raw[f'f{j}'] = v
   return raw
 
 
 def prep_fn(name):
   if name == 'derive':
     return lambda x: {**x, 'derived': x['id'] * 3 + 1}
+  if name == 'pair_T':
+    # a two-column feature built column by column: Fortran-contiguous
+    return lambda x: {**x, 'pair': np.stack([x['id'], x['id'] * 2 + 1]).T}
   if name == 'cast':
     return lambda x: {**x, 'id_f': x['id'].astype(np.float32)}
   if name == 'drop':
@@ -334,6 +342,8 @@ def case_strategy(draw, tier, padded):
     case['slice'] = [draw(bound), draw(bound), step]
   if preps and draw(st.booleans()):
     case['warm'] = True
+  if draw(st.integers(0, 2)) == 0:
+    case['layout'] = 'F'
   if padded:
     case['buckets'] = draw(st.integers(1, 8))
   else:
@@ -353,6 +363,8 @@ def labels(case):
     ls.append('sliced_dataset')
     if case['slice'][2] not in (None, 1):
       ls.append('slice_step!=1')
+  if case.get('layout') == 'F' or 'pair_T' in case['preps']:
+    ls.append('column_major_feature')
   if case.get('warm'):
     ls.append('preprocessor_used_before_append')
   ls.append('N=0' if n == 0 else ('B>N' if b > n else ('B|N' if n % b == 0 else 'B∤N')))
